@@ -17,12 +17,12 @@ STANDINS = {
     'C02': [B.standin_prec_chains],
     'C04': [B.standin_arith_edges, B.standin_range_edges, B.standin_fmt_edges],
     'C05': [B.standin_literals],
-    'C08': [B.standin_env_fields],
+    'C08': [],   # covered (faster, broader) by bounded/c08.py
     'C10': [B.standin_reserved_let],
     'C11': [B.standin_literals, B.standin_token_positions, B.standin_longest_operator],
     'C13': [B.standin_verdict_order],
-    'C14': [B.standin_out_all_or_nothing],
-    'C18': [B.standin_env_leak],
+    'C14': [],   # covered by bounded/c14.py
+    'C18': [],   # covered by bounded/c18.py
 }
 # per-property modules add their generators: replay/bounded/cNN.py defines STANDINS = [fn, ...]
 for pid in ['C%02d' % i for i in range(1, 21)]:
